@@ -358,7 +358,7 @@ func (enc Encryptor) encryptZeroSk(sk *SecretKey, ct interface{}) (err error) {
 	case *Ciphertext:
 
 		var c1 ring.Poly
-		if ct.Degree() == 1 {
+		if ct.Degree() >= 1 {
 			c1 = ct.Value[1]
 		} else {
 			c1 = enc.buffQP[1].Q
@@ -376,7 +376,7 @@ func (enc Encryptor) encryptZeroSk(sk *SecretKey, ct interface{}) (err error) {
 
 		var c1 ringqp.Poly
 
-		if ct.Degree() == 1 {
+		if ct.Degree() >= 1 {
 			c1 = ct.Value[1]
 		} else {
 			c1 = enc.buffQP[1]
